@@ -1,7 +1,9 @@
 package main
 
 import (
+	"go/ast"
 	"fmt"
+	"os"
 	"go/token"
 	"go/types"
 
@@ -148,6 +150,7 @@ func (x *Exec) step(s *State, in ssa.Instruction) (cont bool) {
 	}()
 	switch t := in.(type) {
 	case *ssa.DebugRef:
+		x.debugRef(s, t)
 		return true
 	case *ssa.Alloc:
 		et := t.Type().Underlying().(*types.Pointer).Elem()
@@ -155,6 +158,7 @@ func (x *Exec) step(s *State, in ssa.Instruction) (cont bool) {
 		p.T = t.Type()
 		x.freshRef[p.S] = true
 		s.env[t] = p
+		s.setName(t.Comment, p, true)
 	case *ssa.FieldAddr:
 		p := x.val(s, t.X)
 		st := p.T.Underlying().(*types.Pointer).Elem().Underlying().(*types.Struct)
@@ -711,4 +715,205 @@ func (x *Exec) intToFloat(s *State, i string) string {
 		}
 	}
 	return t
+}
+
+
+// Source-level names. In debug mode go/ssa records which SSA value each
+// source expression denotes; executing a record binds the name on this path.
+//   - the record for an assigned identifier is emitted after the store and
+//     carries the stored value — except for x := T{...} / x = T{...}, which is
+//     initialised in place: there the record is emitted before the stores and
+//     (after lifting) denotes the OLD value, so it is dropped and the composite
+//     literal's own record binds the name;
+//   - the record for the right-hand side expression of an assignment gives the
+//     value being stored (bound to the assigned name when the types agree);
+//   - identifiers read inside the right-hand side of an assignment to the same
+//     name (x = f(x), a, b = b, a) denote the old value and bind nothing.
+type assignInfo struct {
+	lhs      map[*ast.Ident]ast.Expr   // assigned identifier -> its own right-hand side (nil: tuple / none / compound)
+	rhs      map[ast.Expr][]*ast.Ident // right-hand side expression -> assigned identifiers (by position; nil entries skipped)
+	noBind   map[*ast.Ident]bool       // reads of a name inside an assignment to that name
+	declType map[*ast.Ident]types.Type
+}
+
+func (x *Exec) assignInfo() *assignInfo {
+	if x.ai != nil {
+		return x.ai
+	}
+	ai := &assignInfo{lhs: map[*ast.Ident]ast.Expr{}, rhs: map[ast.Expr][]*ast.Ident{}, noBind: map[*ast.Ident]bool{}}
+	x.ai = ai
+	syn := x.fn.Syntax()
+	if syn == nil {
+		return ai
+	}
+	record := func(lhs []ast.Expr, rhs []ast.Expr, simple bool) {
+		names := map[string]bool{}
+		ids := make([]*ast.Ident, len(lhs))
+		for i, l := range lhs {
+			if id, ok := l.(*ast.Ident); ok {
+				ai.lhs[id] = nil
+				if id.Name != "_" {
+					ids[i] = id
+					names[id.Name] = true
+				}
+			}
+		}
+		for _, r := range rhs {
+			ast.Inspect(r, func(n ast.Node) bool {
+				if _, isLit := n.(*ast.FuncLit); isLit {
+					return false
+				}
+				if id, ok := n.(*ast.Ident); ok && names[id.Name] {
+					ai.noBind[id] = true
+				}
+				return true
+			})
+		}
+		if !simple {
+			return
+		}
+		if len(lhs) == len(rhs) {
+			for i, r := range rhs {
+				if ids[i] != nil {
+					r = ast.Unparen(r)
+					ai.lhs[ids[i]] = r
+					ai.rhs[r] = append(ai.rhs[r], ids[i])
+				}
+			}
+		} else if len(rhs) == 1 {
+			r := ast.Unparen(rhs[0])
+			ai.rhs[r] = ids
+		}
+	}
+	ast.Inspect(syn, func(n ast.Node) bool {
+		switch t := n.(type) {
+		case *ast.AssignStmt:
+			record(t.Lhs, t.Rhs, t.Tok == token.ASSIGN || t.Tok == token.DEFINE)
+		case *ast.IncDecStmt:
+			record([]ast.Expr{t.X}, nil, false)
+		case *ast.RangeStmt:
+			var l []ast.Expr
+			if t.Key != nil {
+				l = append(l, t.Key)
+			}
+			if t.Value != nil {
+				l = append(l, t.Value)
+			}
+			record(l, nil, false)
+		case *ast.ValueSpec:
+			var l []ast.Expr
+			for _, nm := range t.Names {
+				l = append(l, nm)
+			}
+			record(l, t.Values, true)
+		}
+		return true
+	})
+	return ai
+}
+
+func (x *Exec) debugRef(s *State, t *ssa.DebugRef) {
+	ai := x.assignInfo()
+	expr := ast.Unparen(t.Expr)
+	// 1. this expression is what an assignment stores
+	bindStored := func() {
+		ids, ok := ai.rhs[expr]
+		if !ok || t.IsAddr {
+			return
+		}
+		v, ok := s.env[t.X]
+		if !ok {
+			if c, isC := t.X.(*ssa.Const); isC {
+				v = x.constVal(c)
+			} else {
+				return
+			}
+		}
+		info := x.v.infos[x.fn.Pkg.Pkg.Path()]
+		typeOf := func(id *ast.Ident) types.Type {
+			if info == nil {
+				return nil
+			}
+			if o := info.Defs[id]; o != nil {
+				return o.Type()
+			}
+			if o := info.Uses[id]; o != nil {
+				return o.Type()
+			}
+			return nil
+		}
+		if len(ids) == 1 && kindOf(v.T) != kTuple {
+			if id := ids[0]; id != nil {
+				if vt := typeOf(id); vt != nil && v.T != nil && types.Identical(vt, v.T) {
+					s.setName(id.Name, v, false)
+				}
+			}
+			return
+		}
+		if kindOf(v.T) == kTuple && len(v.F) == len(ids) {
+			for i, id := range ids {
+				if id == nil {
+					continue
+				}
+				f := v.F[i]
+				if vt := typeOf(id); vt != nil && f.T != nil && types.Identical(vt, f.T) {
+					s.setName(id.Name, f, false)
+				}
+			}
+		}
+	}
+	id, isIdent := expr.(*ast.Ident)
+	if !isIdent {
+		bindStored()
+		return
+	}
+	if os.Getenv("GOWP_NAMES") == id.Name {
+		_, isL := ai.lhs[id]
+		fmt.Fprintf(os.Stderr, "debugref %s at %s X=%s %T lhs=%v nobind=%v\n", id.Name, x.v.prog.Fset.Position(t.Pos()), t.X.Name(), t.X, isL, ai.noBind[id])
+	}
+	if rhs, isL := ai.lhs[id]; isL {
+		if a, ok := t.X.(*ssa.Alloc); ok && t.IsAddr {
+			// a variable that lives in memory: the name denotes the cell
+			if p, ok := s.env[a]; ok {
+				s.setName(id.Name, p, true)
+			}
+			return
+		}
+		if _, isLit := rhs.(*ast.CompositeLit); isLit {
+			// in-place initialisation: the builder takes the variable's address
+			// BEFORE storing the literal, so after lifting this record denotes
+			// the old value; the literal's own record binds the name
+			delete(s.names, id.Name)
+			return
+		}
+		// every other assignment records the identifier after the store, with
+		// the stored value: an ordinary binding (below)
+	}
+	// 2. a read of the variable
+	if !ai.noBind[id] {
+		if _, isParam := x.params[id.Name]; isParam {
+			if _, ok := t.X.(*ssa.Parameter); ok {
+				bindStored()
+				return
+			}
+		}
+		if t.IsAddr {
+			if a, ok := t.X.(*ssa.Alloc); ok {
+				if p, ok := s.env[a]; ok {
+					s.setName(id.Name, p, true)
+				}
+			}
+		} else {
+			switch xv := t.X.(type) {
+			case *ssa.Const:
+				s.setName(id.Name, x.constVal(xv), false)
+			case *ssa.Function, *ssa.Builtin:
+			default:
+				if v, ok := s.env[t.X]; ok {
+					s.setName(id.Name, v, false)
+				}
+			}
+		}
+	}
+	bindStored()
 }
